@@ -52,7 +52,9 @@ def run(chk):
         "VrlValueConvert::try_* coercion to an argument in a P-VAR state that still admits a variant the parameter declares but the coercion rejects, "
         "the function's type_def — evaluated abstractly (P-ABS) with that argument typed exactly that kind — must be fallible. R02h (per-argument-type refinement of R02a): for a function whose type_def depends on its arguments, whenever the type_def evaluated with one "
         "argument typed exactly X is infallible, no message-error construction (here or in a stdlib helper reached from here) is reachable in a P-VAR state "
-        "where that argument is an X. Undecided: pending_fallibilities bookkeeping (seeding agents found `{ to_int(.x); 6 } / 2` accepted), the NaN exception the source "
+        "where that argument is an X. R02i (literal ranges): where resolve casts a signed integer argument to an unsigned type and only bounds it afterwards (the cast sites C05 R05a "
+        "discharges as `bounded after the cast`: a negative argument becomes huge and is *rejected with an error*), the function's type_def evaluated with the "
+        "literal -1 for that argument must be fallible. Undecided: pending_fallibilities bookkeeping (seeding agents found `{ to_int(.x); 6 } / 2` accepted), the NaN exception the source "
         "documents (float results that become NaN), operators applied to constants (resolve_constant is abstracted as None), `|` (Op::new admits only objects).")
     M = fmap.FMap(facts)
     rid = "R02a"
@@ -165,6 +167,7 @@ def run(chk):
     rule_r02e(chk)
     rule_r02g(chk, M)
     rule_r02h(chk, M)
+    rule_r02i(chk, M)
     from p_c01 import rule_r01g
     rule_r01g(chk)          # shared with C01: a branch compiled on the other branch's variable types yields infallible-typed calls that fail
 
@@ -563,3 +566,90 @@ def rule_r02h(chk, M):
                                   "(%s:%s): a call accepted without `!` fails at run time" % (ident, fld, kname, kname, where, wb.file, ln), detail=d,
                                   loc="%s:%s" % (wb.file, ln))
     chk.extra["R02h_infallible_argument_types_examined"] = n_triples
+
+
+def rule_r02i(chk, M):
+    """a negative literal that resolve rejects after an unsigned cast must not be typed infallible"""
+    import tinfo
+    import stdlibrules as sr
+    facts = chk.facts
+    rid = "R02i"
+    chk.rule(rid, "integer arguments that are cast to unsigned and bounded afterwards: type_def with the literal -1 is fallible", floor=2)
+    minus_one = tinfo.Enum("std::option::Option", "Some", {"0": tinfo.Enum("value::value::Value", "Integer", {"0": -1})})
+    n = 0
+    for f in M.functions.values():
+        ident = f["identifier"]
+        for e in f["exprs"]:
+            tname = M.method_body(e, "type_def")
+            adt = facts.adts.get(e)
+            rn = M.resolve_body(e)
+            if not tname or not adt or not rn:
+                continue
+            rb = facts.body(rn)
+            v = adt["variants"][0]
+            for fld, ty in zip(v["fields"], v["ftys"]):
+                if "dyn compiler::expression::Expression" not in ty:
+                    continue
+                starts = sr.argument_value_locals(facts, rb, fld)
+                # also `map_resolve_with_default(self.fld, ..)` for optional arguments
+                for bb, t in rb.calls():
+                    if rb.callee(t).endswith("map_resolve_with_default") and t["args"]:
+                        r = cfgq.ref_root(rb, op_local(t["args"][0])) if op_local(t["args"][0]) is not None else None
+                        if r and r[0] == 1 and fld in r[1]:
+                            starts.append(t["dest"]["l"])
+                if not starts:
+                    continue
+                al = sr.value_aliases(rb, starts)
+                # the helper the value is handed to
+                hit = None
+                for bb, t in rb.calls():
+                    cal = rb.callee(t)
+                    pos = [i for i, a in enumerate(t["args"]) if op_local(a) in al]
+                    if pos and facts.has(cal) and (cal.startswith("stdlib::") or cal.startswith("<stdlib::")) and "::{closure" not in cal:
+                        hb = facts.body(cal)
+                        if pos[0] + 1 > hb.argc:
+                            continue
+                        hal = sr.value_aliases(hb, [pos[0] + 1])
+                        # try_integer(param) ... as uN, followed by an order comparison on the cast result
+                        ints = set()
+                        for cbb, ct in hb.calls():
+                            if hb.callee(ct).endswith("VrlValueConvert>::try_integer") and ct["args"] and op_local(ct["args"][0]) in hal:
+                                ints |= sr.value_aliases(hb, [ct["dest"]["l"]])
+                        for bi, si, st in hb.iter_stmts():
+                            rv = st["rv"]
+                            if rv["k"] == "cast" and rv.get("ck") == "IntToInt" and rv.get("from") in ("i64", "isize") and (rv.get("to") or "").startswith("u") \
+                                    and op_local(rv["op"]) in ints:
+                                res_al = sr.alias_set(hb, st["d"]["l"])
+                                if any(g for g in sr.order_guards(hb, res_al)):
+                                    hit = (cal, st.get("ln"))
+                if not hit:
+                    continue
+                n += 1
+                fields = {}
+                exprs = {}
+                for fld2, ty2 in zip(v["fields"], v["ftys"]):
+                    if re.match(r"^std::boxed::Box<\(?dyn compiler::expression::Expression", ty2):
+                        fields[fld2] = tinfo.boxed(tinfo.Expr(fld2))
+                    elif ty2.startswith("std::option::Option<std::boxed::Box<"):
+                        fields[fld2] = tinfo.Enum("std::option::Option", "Some", {"0": tinfo.boxed(tinfo.Expr(fld2))})
+                    else:
+                        fields[fld2] = tinfo.UNK
+                    exprs[fld2] = tinfo.TD({"integer"} if fld2 == fld else set(tinfo.KINDS))
+                it = tinfo.Interp(facts, exprs, {fld: minus_one})
+                d = {"function": ident, "argument": fld, "cast_then_bounded_at": "%s line %s" % hit}
+                try:
+                    res = it.call_body(tname, [tinfo.Ref(tinfo.Enum(e, None, dict(fields))), tinfo.Ref(tinfo.ST())])
+                except tinfo.Undecided as ex:
+                    d["undecided"] = str(ex)[:120]
+                    chk.instance(rid, d, ok=None)
+                    chk.note(rid, "%s: type_def with a literal could not be evaluated (%s)" % (ident, str(ex)[:80]))
+                    continue
+                ok = isinstance(res, tinfo.TD) and res.fallible
+                d["type_def_for_literal_minus_one"] = repr(res)
+                chk.instance(rid, d, ok=ok)
+                if not ok:
+                    chk.violation(rid, f["file"], e, "`%s(.., %s: -1)` typed infallible" % (ident, fld),
+                                  "`%s`: resolve casts `%s` to an unsigned type and rejects what is out of range afterwards (%s line %s), so a negative literal is "
+                                  "an error at run time; but type_def with the literal -1 yields %r: `%s(.., -1)` compiles without `!` and fails"
+                                  % (ident, fld, hit[0], hit[1], res, ident), detail=d)
+    chk.extra["R02i_arguments"] = n
